@@ -1,3 +1,18 @@
 from props.common import run_all as run  # noqa: F401
 
-META = {"claimed": False, "reason": "check not built yet (work in progress; the technique applies, see DESIGN.md section 5)"}
+META = {'claimed': True,
+ 'title': 'Buffered reader and writer preserve the byte stream exactly and in order',
+ 'level_text': 'proof: netbuf_read.c and netbuf_write.c are mirrored (4096/2/WBUFLEN regenerated). Reader: the window invariant bufpos <= datalen <= buflen holds from init through EVERY history of '
+               'wait(k)/consume/cancel/immediate/completed-read respecting the API rules, for every k (k >> 4096 included) and every allocation outcome: no fault, no failed assert, every '
+               'network_read started targets exactly [datalen, end of block) with min = k - buffered, and what the application can peek is exactly the unconsumed suffix of the abstract stream, which '
+               'grows by the first n bytes of each completed read and nothing else (C07_reader_refines_stream); a wait reports success exactly when k unconsumed bytes are present '
+               '(C07_wait_immediate, C07_wait_then_read), EOF gives 1 and error -1 without changing the buffer (C07_read_eof_error). Writer: for every history of write/reserve/consume/completion '
+               '(size 0 included, every allocation and completion outcome): no fault/assert, no zero-length network_write, the buffers handed to network_write concatenated are a prefix of the '
+               'accepted bytes and with the queue all of them while nothing failed; the fail callback fires exactly once iff failed; after failure nothing more is sent and writes return 0 changing '
+               'nothing (C07_writer_prefix_total, C07_writer_failed_is_sticky, C07_wire_is_prefix_of_accepted). KNOWN FINDING F9 (listed): netbuf_read_wait_cancel after a partial arrival loses the '
+               'bytes the cancelled network_read had received; the strict statement is refuted with a witness (C07_reader_cancel_partial_loss_refuted) and the check reports it as KNOWN-FINDING. '
+               "Bound to the C by the correspondence run over the composed model (NetWorld) with a scripted kernel and an independent stream checker on the implementation's log.",
+ 'level_note': 'Trusted: Coq kernel; hand-written models bound by differential execution (ASan, scripted kernel); the transport below is the C06 contract (completed read = n in [min,max] bytes in '
+               'its target range, or 0, or -1). Print Assumptions: closed under the global context.',
+ 'trusted_base': ['scripted kernel harness/wrap_net.c', 'tools/extract/x_net.py'],
+ 'assumptions': ["callers respect netbuf.h's API rules (hist_ok / whist_ok: no second wait while one is pending, consume at most what is available, ...)"]}
